@@ -121,10 +121,9 @@ def storyEnd (s : Xml) (progStart : Option Nat) (offset : Option Nat) : Except P
     | _, _ => pure none
 
 /-- every property of one `Story` of `ro.stories` -/
-def storyView (s : Xml) (progStart : Option Nat) (offsets : Option (List (Option String × Nat))) :
+def storyView (s : Xml) (progStart : Option Nat) (offset : Option Nat) :
     Except PyExc StoryView := do
   let id := Xml.childText (some s) "storyID"
-  let offset := offsets.bind (fun tbl => lookupLast tbl id)
   let d ← storyDuration s
   let st ← storyStart s progStart offset
   let en ← storyEnd s progStart offset
@@ -152,13 +151,22 @@ def mapExcept {α β : Type} (f : α → Except PyExc β) : List α → Except P
     let bs ← mapExcept f as
     pure (b :: bs)
 
+/-- the stories walked together with the offset table: the k-th story looks up its own element, i.e.
+    the k-th offset -/
+def viewsFrom (progStart : Option Nat) : List Xml → List Nat → Except PyExc (List StoryView)
+  | [], _ => .ok []
+  | s :: ss, offs => do
+    let v ← storyView s progStart offs.head?
+    let vs ← viewsFrom progStart ss offs.tail
+    pure (v :: vs)
+
 /-- `ro.stories` (l.235-245) with every property of every story evaluated -/
 def roStories (rc : Xml) : Except PyExc (List StoryView) :=
   let ss := rc.findall "story"
   if ss.isEmpty then .ok [] else do
     let st ← roStart rc
-    let offs ← storyOffsets ss
-    mapExcept (fun s => storyView s st offs) ss
+    let offs ← storyOffsetsFrom ss 0
+    viewsFrom st ss offs
 
 /-- `RunningOrder.duration` (l.271-278): `sum(...)`, `None` when some story has no duration -/
 def sumDurations (vs : List StoryView) : Option Nat :=
